@@ -6,7 +6,7 @@ import copy
 import warnings
 from datetime import datetime, timezone
 
-from vlib.h import ob
+from vlib.h import ob, excl
 from harness.sigfix import *          # noqa
 from harness.c08 import split_one
 from pgpy import PGPKey, PGPUID, PGPSignature
@@ -30,6 +30,14 @@ def _pkt_bytes(obj):
     return bytes(obj.__bytearray__())
 
 
+def unknown_alg_sig(sigbytes):
+    """the same signature packet with its public-key algorithm octet set to an id PGPy has no signature class for (ElGamal, 16): kept opaque"""
+    b = bytearray(sigbytes)
+    hl = 2 if b[1] < 192 else 3
+    b[hl + 2] = 16
+    return bytes(b)
+
+
 def make_menu():
     A = new_key('alice', sub=True)
     B = new_key('bob', sub=False)
@@ -50,6 +58,11 @@ def make_menu():
     binding = [s for s in subA._signatures if s.type == SignatureType.Subkey_Binding][0]
     direct = A.certify(A, created=T0, hash=HashAlgorithm.SHA256)
     rev = A.revoke(uid2, created=T1, hash=HashAlgorithm.SHA256)
+    revoker_s = A.revoker(pubB, created=T1, hash=HashAlgorithm.SHA256, sensitive=True)
+    # a user id that is not valid UTF-8 (kept through the charmap fallback) and a signature by an unknown public-key algorithm
+    odd_uid = bytes([0xB4, 3, 0xFF, 0xFE, 0x58])
+    raw = bytearray(_pkt_bytes(plain))
+    opaque_sig = None
     pub_sub1 = [k for k in pubA.subkeys.values()][0]
     pub_sub2 = [k for k in pubA.subkeys.values()][1]
     trust = bytes([0xCC, 2, 0, 5])              # tag 12, as GnuPG keyring files have them
@@ -59,6 +72,7 @@ def make_menu():
         ('sig', _pkt_bytes(selfcert)), ('sig', _pkt_bytes(third)), ('sig', _pkt_bytes(local)), ('sig', _pkt_bytes(plain)),
         ('sig', _pkt_bytes(binding)), ('sig', _pkt_bytes(direct)), ('sig', _pkt_bytes(rev)),
         ('key', _pkt_bytes(pubB._key)),
+        ('sig', _pkt_bytes(revoker_s)), ('uid', odd_uid), ('sig', unknown_alg_sig(_pkt_bytes(plain))),
     ]
     return _pkt_bytes(pubA._key), menu, str(pubA.fingerprint), str(pubB.fingerprint)
 
@@ -162,7 +176,7 @@ def check_shape(idx):
 @ob('O14.1', 'import attaches every signature to the component that precedes it, ignores trust packets, splits a second primary key off; export omits exactly the '
              'signatures marked non-exportable; re-import gives the same structure; a copy exports identically',
     'packet sequence after the primary key: 1..3 (quick) / 1..4 (thorough) packets drawn by symbolic index from a %d-element menu (2 user ids, attribute, 2 subkeys, trust packet, '
-    '7 signatures incl. exportable absent / 1 / 0 and equal and differing creation times, second primary key)' % NM,
+    '9 signatures incl. exportable absent / 1 / 0, a sensitive designated-revoker signature, one by an unknown algorithm, equal and differing creation times; a non-UTF-8 user id; second primary key)' % NM,
     cond_timeout={'q': 280, 't': 1500}, path_timeout=120,
     partitions={'q': [['n <= 2']] + [['n == 3', 'i0 == %d' % a, 'i1 %% 2 == %d' % b] for a in range(NM) for b in range(2)],
                 't': [['n <= 2']] + [['n == 3', 'i0 == %d' % a] for a in range(NM)] + [['n == 4', 'i0 == %d' % a, 'i1 == %d' % b] for a in range(NM) for b in range(NM)]})
@@ -173,6 +187,7 @@ def key_shape(n: int, i0: int, i1: int, i2: int, i3: int) -> bool:
     pre: n >= 2 or i1 == 0
     pre: n >= 3 or i2 == 0
     pre: n >= 4 or i3 == 0
+    pre: excl('KF-C14-opaque-signature', i0 == 16 or (n >= 2 and i1 == 16) or (n >= 3 and i2 == 16) or (n >= 4 and i3 == 16))
     post: _
     """
     idx = [i0, i1, i2, i3]
@@ -183,5 +198,15 @@ def key_shape(n: int, i0: int, i1: int, i2: int, i3: int) -> bool:
     return check_shape(out)
 
 
+@ob('O14.1k', 'witness of KF-C14-opaque-signature: a signature packet by a public-key algorithm PGPy has no signature class for loses its integers on import',
+    'user id followed by such a signature', cond_timeout={'q': 120, 't': 120}, known='KF-C14-opaque-signature', twin=False)
+def key_shape_opaque_sig(i0: int) -> bool:
+    """
+    pre: i0 == 0
+    post: _
+    """
+    return check_shape([i0, 16])
+
+
 SANITY = ['key_shape(1, 0, 0, 0, 0)', 'key_shape(2, 0, 6, 0, 0)', 'key_shape(3, 0, 6, 7, 0)', 'key_shape(3, 0, 8, 7, 0)', 'key_shape(4, 0, 6, 3, 10)', 'key_shape(4, 5, 0, 5, 6)',
-          'key_shape(3, 13, 0, 6, 0)', 'key_shape(4, 0, 6, 13, 7)', 'key_shape(4, 1, 12, 9, 8)', 'key_shape(2, 11, 2, 0, 0)', 'key_shape(4, 3, 10, 4, 10)', 'key_shape(3, 6, 7, 8, 0)']
+          'key_shape(3, 13, 0, 6, 0)', 'key_shape(4, 0, 6, 13, 7)', 'key_shape(4, 1, 12, 9, 8)', 'key_shape(2, 11, 2, 0, 0)', 'key_shape(4, 3, 10, 4, 10)', 'key_shape(3, 6, 7, 8, 0)', 'key_shape(1, 14, 0, 0, 0)', 'key_shape(2, 15, 6, 0, 0)', 'key_shape(2, 1, 8, 0, 0)']
